@@ -44,7 +44,7 @@ class P(vlib.Prop):
     properties_file = "C20/Properties.v"
     instance_obligations = []
     harness_module = "C20.Harness"
-    case_type = "(list ((nat * nat) * ((nat * nat) * list nat)) * bool) * (list (nat * nat) * (list (nat * bool) * (list (nat * (nat * (nat * nat))) * nat)))".replace("(nat * (nat * (nat * nat)))", "(nat * (nat * nat))")
+    case_type = "(list ((nat * nat) * ((nat * nat) * list nat)) * (bool * (nat * nat))) * (list (nat * nat) * (list (nat * bool) * (list (nat * (nat * nat)) * nat)))"
     shard = 40
     harnesses = [
         vlib.Harness("run", "otelcol", ".", {"zz_verif_c20_test.go": "C20/run_test.go",
@@ -53,7 +53,8 @@ class P(vlib.Prop):
     ]
     rule = ("each case is ONE HISTORY of a real otelcol.Collector built over a scripted confmap provider (generation g of the "
             "configuration = g-th Retrieve; the script decides per generation: resolves / validates / which factory fails / which "
-            "component fails to Start / which fail to Shutdown; 1-2 extensions, 0-2 processors) and instrumented components. The "
+            "component fails to Start / which fail to Shutdown; 1-2 extensions, 0-2 processors; resolver topology: 1-3 configuration "
+            "URIs on one provider, optionally a provider used only for a ${...} expansion and one never used) and instrumented components. The "
             "goroutine running Run is parked at gates where a model section begins (provider.Retrieve, first NotReady() of a retiring "
             "service, Retrieved.Close in shutdown()); between sections the harness injects watcher notifications (nil/error; each from a "
             "goroutine of its own, a second one behind a pending change stays blocked as a provider would), "
